@@ -152,6 +152,12 @@ func c02Inputs(c *Ctx, cfg wcfg, i int64, g *prng.Rng) []inputSpec {
 		in = append(in, inputSpec{"raw-then-compressible", append(g.Bytes(bm), gen.Text(g, c.Repo, bm+bm/3)...)},
 			inputSpec{"compressible-then-raw", append(gen.Text(g, c.Repo, bm), g.Bytes(bm/2+7)...)})
 	}
+	if bm > 64<<10 {
+		// blocks longer than the 64 KiB window whose only redundancy lies exactly at the window's edge:
+		// noise with a period of 65535 / 65536 / 65537 bytes (a match at distance 65536 must not be used)
+		per := []int{65536, 65535, 65537, 65536}[i%4]
+		in = append(in, inputSpec{"window-edge-period", gen.Periodic(g, minInt(bm, 256<<10)-g.N(3000), per)})
+	}
 	in = append(in, inputSpec{"incompressible", g.Bytes(minInt(bm+bm/2, 300000) + g.N(100))}, inputSpec{"highly-compressible", bytes.Repeat([]byte("ab"), minInt(bm, 1<<20)/2+g.N(50))})
 	if cfg.bc {
 		in = append(in, inputSpec{"block-xxh32-zero", zeroSumData(g, 500+g.N(3000))})
